@@ -6914,6 +6914,9 @@ ZSTD_compressSequences_internal(ZSTD_CCtx* cctx,
             op += cBlockSize;
             remaining -= blockSize;
             dstCapacity -= cBlockSize;
+            /* a dictionary's offset-code table is only known valid for the first block, however that block is emitted */
+            if (cctx->blockState.prevCBlock->entropy.fse.offcode_repeatMode == FSE_repeat_valid)
+                cctx->blockState.prevCBlock->entropy.fse.offcode_repeatMode = FSE_repeat_check;
             continue;
         }
 
@@ -6951,8 +6954,6 @@ ZSTD_compressSequences_internal(ZSTD_CCtx* cctx,
             U32 cBlockHeader;
             /* Error checking and repcodes update */
             ZSTD_blockState_confirmRepcodesAndEntropyTables(&cctx->blockState);
-            if (cctx->blockState.prevCBlock->entropy.fse.offcode_repeatMode == FSE_repeat_valid)
-                cctx->blockState.prevCBlock->entropy.fse.offcode_repeatMode = FSE_repeat_check;
 
             /* Write block header into beginning of block*/
             cBlockHeader = lastBlock + (((U32)bt_compressed)<<1) + (U32)(compressedSeqsSize << 3);
@@ -6960,6 +6961,10 @@ ZSTD_compressSequences_internal(ZSTD_CCtx* cctx,
             cBlockSize = ZSTD_blockHeaderSize + compressedSeqsSize;
             DEBUGLOG(5, "Writing out compressed block, size: %zu", cBlockSize);
         }
+        /* a dictionary's offset-code table is only known valid for the first block, whether that block
+         * was emitted compressed, raw or RLE (same rule as ZSTD_compressBlock_internal) */
+        if (cctx->blockState.prevCBlock->entropy.fse.offcode_repeatMode == FSE_repeat_valid)
+            cctx->blockState.prevCBlock->entropy.fse.offcode_repeatMode = FSE_repeat_check;
 
         cSize += cBlockSize;
 
